@@ -375,15 +375,15 @@ func Preemptions(points []Point, choices []int) int {
 type ExecFunc func(prefix []int, expect []Point) (points []Point, choices []int, verdict string, err error)
 
 type Result struct {
-	Executions  int
-	Decisions   int
-	Diverged    int
-	MaxBound    int
-	Complete    bool
-	Outcomes    map[string]int
-	Violations  []Found
-	Samples     [][]string
-	MaxDepth    int
+	Executions int
+	Decisions  int
+	Diverged   int
+	MaxBound   int
+	Complete   bool
+	Outcomes   map[string]int
+	Violations []Found
+	Samples    [][]string
+	MaxDepth   int
 }
 
 type Found struct {
